@@ -4,14 +4,14 @@ ALLF = '{"unkMsg", "unkAck", "tgtSendFail", "srcSendFail", "openFail"}'
 
 
 def cfg(name, k=2, srcends='{"eof", "err"}', iniends='{"closesend", "cancel"}', faults=ALLF, lifetime="TRUE", post="TRUE",
-        syncs="{TRUE, FALSE}", race="TRUE", latchmsg="TRUE", latchack="TRUE", closesend="TRUE", cancel="TRUE",
+        syncs="{TRUE, FALSE}", srckinds='{"coop", "silent"}', race="TRUE", latchmsg="TRUE", latchack="TRUE", closesend="TRUE", cancel="TRUE", wake="TRUE",
         invs="InOrder NoUnknownForwarded NoStuck EveryScriptEnds", props=None, sim=False):
     out = "INIT SimInit\nNEXT SimNext\n" if sim else "SPECIFICATION Spec\n"
-    out += "CONSTANTS\n  K = %d\n  SrcEnds = %s\n  IniEnds = %s\n  Faults = %s\n  Lifetime = %s\n  Post = %s\n  Syncs = %s\n" % (
-        k, srcends, iniends, faults, lifetime, post, syncs)
+    out += "CONSTANTS\n  K = %d\n  SrcEnds = %s\n  IniEnds = %s\n  Faults = %s\n  Lifetime = %s\n  Post = %s\n  Syncs = %s\n  SrcKinds = %s\n" % (
+        k, srcends, iniends, faults, lifetime, post, syncs, srckinds)
     if not sim:
-        out += "  RaceHandoff = %s\n  LatchMsg = %s\n  LatchAck = %s\n  CloseSendOnExit = %s\n  CancelOnReturn = %s\n" % (
-            race, latchmsg, latchack, closesend, cancel)
+        out += "  RaceHandoff = %s\n  LatchMsg = %s\n  LatchAck = %s\n  CloseSendOnExit = %s\n  CancelOnReturn = %s\n  FmsgWakesOnLatch = %s\n" % (
+            race, latchmsg, latchack, closesend, cancel, wake)
         if invs:
             out += "INVARIANTS %s\n" % invs
         if props:
@@ -35,6 +35,8 @@ cfg("mut_noclosesend", k=1, closesend="FALSE")         # holds: Run's deferred c
 cfg("mut_nocancel", k=1, cancel="FALSE")               # holds: the handler's return ends the derived context
 cfg("mut_noclosesend_nocancel", k=1, closesend="FALSE", cancel="FALSE")    # holds: the outgoing context is derived from the server stream's
 cfg("mut_nolatchack_noclosesend", k=1, latchack="FALSE", closesend="FALSE")   # violated
+cfg("mut_nowake", k=1, wake="FALSE")                   # violated with a silent source: Fmsg only ranges over the data channel
+cfg("mut_nowake_coop", k=1, wake="FALSE", srckinds='{"coop"}')   # holds: a cooperative source hides it
 # generator
 cfg("sim_q", k=2, sim=True)
 cfg("sim_t", k=3, sim=True)
